@@ -43,13 +43,23 @@ PINNED = [
     ("skA2", "poly", [[12, 0, 12, 3, 9, 9]]),
     ("skB2", "poly", [[3, 3, 3, 6, 9, 6, 9, 12, 12, 12]]),
     ("skC2", "poly", [[6, 12, 12, 0, 3, 3], [12, 0, 6, 6, 6, 12]]),
+    # operands far away from the others (disjoint bounding boxes), interior depending on the rule
+    ("farFrame", "poly", [[22, 2, 32, 2, 32, 12, 22, 12], [25, 5, 29, 5, 29, 9, 25, 9]]),
+    ("farPent", "poly", [[28, 1, 31, 13, 22, 5, 34, 5, 25, 13]]),
 ]
+FARBOX = [-1, -1, 36, 18]
 CATX = CAT + PINNED
 NCAT = len(CAT)
 PINNED_JOBS = [
     ("difference", "pathops", (NCAT + 0, NCAT + 1), ("evenodd", "evenodd")),
     ("union", "pathops", (NCAT + 2, NCAT + 3, NCAT + 4), ("nonzero", "evenodd", "evenodd")),
 ]
+for _far in (5, 6):
+    for _near in (0, 3, 5):            # sqA, bowtie, frameSame
+        for _rules in (("evenodd", "nonzero"), ("nonzero", "evenodd"), ("evenodd", "evenodd")):
+            for _op in ("union", "difference", "intersection"):
+                PINNED_JOBS.append((_op, "pathops", (_near, NCAT + _far), _rules, FARBOX))
+                PINNED_JOBS.append((_op, "types", (NCAT + _far, _near), _rules, FARBOX))
 BOX = [-1, -1, 15, 18]
 
 
@@ -104,9 +114,9 @@ def call(op, api, entries, rules):
 
 
 def one(job):
-    op, api, idxs, rules = job
+    op, api, idxs, rules = job[:4]
     entries = [CATX[i] for i in idxs]
-    rec = {"op": "intersection" if op == "intersection_default" else op, "box": BOX,
+    rec = {"op": "intersection" if op == "intersection_default" else op, "box": job[4] if len(job) > 4 else BOX,
            "opnds": [spec_opnd(e, r) for e, r in zip(entries, rules)]}
     try:
         res = call(op, api, entries, list(rules))
@@ -139,9 +149,9 @@ def unsimplifiable(entry):
 
 
 def classify(job, verdict):
-    op, api, idxs, rules = job
+    op, api, idxs, rules = job[:4]
     names = [CATX[i][0] for i in idxs]
-    if any(i >= NCAT for i in idxs):
+    if any(n.startswith("sk") for n in names):
         return "C13/engine-silently-wrong/coincident-collinear-edges/" + op + "/" + "+".join(names)
     if len(idxs) >= 2 and any(unsimplifiable(CAT[i]) for i in idxs):
         # the engine returns a wrong path without reporting failure; picosvg passes it on
